@@ -8,9 +8,11 @@ name=$1; nosuite=${2:-}
 d=/verif/seeded/$name; base=$(cat "$d/base" 2>/dev/null || cat /verif/seeded/BASE_COMMIT)
 wt=$(mktemp -d /tmp/sconf.XXXXXX); rmdir "$wt"
 git -C /repo worktree add -q --detach "$wt" "$base" || exit 2
-cleanup() { git -C /repo worktree remove --force "$wt" >/dev/null 2>&1; rm -rf "$wt"; }
+cleanup() { git -C /repo worktree remove --force "$wt" >/dev/null 2>&1; rm -rf "$wt" "${TMPDIR:-/nonexistent}"; }
 trap cleanup EXIT
 . /verif/env.sh
+# the suite has tests that clone into fixed paths under $TMPDIR: give every confirmation its own
+export TMPDIR=$(mktemp -d /tmp/sconf_tmp.XXXXXX)
 cd "$wt"
 res() { python3 - "$d/confirm.json" "$@" <<'P'
 import json,sys,os,time
